@@ -8,11 +8,14 @@
     the final SELECT that /repo emits; each tree is compared (inside Coq, on a 4^4 grid of
     counts, exact rationals) with the documented definition `rate_defs`; integer divisions
     are flagged statically.
- X  real accuracy_analysis_from_labels_table / _column (output_type="table") and
-    prediction_errors_from_labels_table / _column on DuckDB and SQLite vs the Gallina model
-    evaluated inside Coq on the labelled pairs with the implementation's own scores; the
-    property oracle (direct recount in Python, independent labels / found flags) is checked on
-    every case and drives the search and the shrink.
+ X  histories on ONE linker: real accuracy_analysis_from_labels_table / _column
+    (output_type="table") and prediction_errors_from_labels_table / _column, then a change of
+    the model (no invalidate_cache), then the calls again - on DuckDB and SQLite.  Every call is
+    compared with the Gallina model evaluated inside Coq on the labelled pairs with the
+    implementation's own scores, and with the property oracle: a direct recount in Python from
+    independent labels, found flags (plain predict() of a fresh linker) and the scores of the
+    CURRENT model (all-pairs predict() of a fresh linker built from save_model_to_json); the
+    oracle drives the search and the shrink.
 """
 from __future__ import annotations
 
@@ -142,8 +145,9 @@ def run(ctx: Ctx):
                        "distinct by full case.")
     ctx.trusted += [
         "translators/c15_rates.py (sqlglot parse of the final SELECT; grid 4^4 comparison of rate trees)",
-        "harness X: the implementation's own match_weight / match_probability per labelled pair are model inputs "
-        "(scoring itself is C02); found-by-blocking is taken from a plain predict() of a fresh linker",
+        "harness X: the implementation's own match_weight / match_probability per labelled pair are the Coq model's inputs "
+        "and are cross-checked (1e-9) against predict() of a fresh linker carrying the current model (scoring itself is C02); "
+        "found-by-blocking is taken from a plain predict() of a fresh linker",
         "modelled not verified: SQL GROUP BY / window RANGE framing / float casts of the engines; "
         "match_probability = 2^t/(1+2^t) and phi's sqrt are compared numerically in Python/Coq with tolerance 1e-9; "
         "N_rate is computed by DuckDB in 32-bit floats (tolerance 1e-6)",
